@@ -3,7 +3,7 @@ decision itself, in a form that does not depend on how the function is laid out.
 import re
 
 from mirlib import AnchorMissing, const_str
-from helpers import vexpr, aggregates
+from helpers import vexpr, aggregates, must_pass
 import guards
 
 
@@ -68,6 +68,69 @@ def r_request_leaves_out_only_moduleless_files(r, prog):
     else:
         r.finding('request-file-filter', conv[0].span, 'a file is put into the request under %s: files are left out for another reason than a missing module declaration' % gs)
     r.floor(1)
+
+
+def _only_loop_and(prog, f, c, allowed=()):
+    """guards of call c in f that are neither loop bookkeeping nor matched by one of the allowed patterns"""
+    gs = [g for g in guards.guard_set(prog, f, c.bb) if not guards._LOOP_HAS_NEXT.match(g)]
+    return [g for g in gs if not any(re.search(a, g) for a in allowed)]
+
+
+def r_every_file_validated(r, prog):
+    """validate_ast hands every file to the validating visitor: once the two early checks left no error, the walk over compilation_state.files
+    presents each file unconditionally - no file is exempt because it has no module, no definitions, or anything else."""
+    f = prog.fn('slicec::validators::validate_ast')
+    vs = [c for c in f.calls() if c.name() == 'visit_with' and not f.blocks[c.bb].get('cleanup')]
+    if len(vs) != 1:
+        raise AnchorMissing('the walk over the files in validate_ast (found %d visit_with calls)' % len(vs))
+    c = vs[0]
+    other = _only_loop_and(prog, f, c, allowed=(r'^!\(has_errors\(', ))
+    it = vexpr(f, c.args[0])
+    if other:
+        r.finding('file-exempt-from-validation', c.span, 'validate_ast visits a file only under %s: the attributes of the file, its module and its definitions are not validated otherwise' % other)
+    elif not re.match(r'^next\(into_iter\(arg1\.files\)\) as Some\.0$', it):
+        r.finding('files-walk', c.span, 'validate_ast visits %s, not every element of compilation_state.files' % it[:100])
+    else:
+        r.ok('every file of the compilation is presented to the validators (behind the two early checks only)')
+    r.floor(1)
+
+
+def r_every_file_parsed(r, prog):
+    """parse_files parses every file of the compilation, one after another in the order of the list: no file is skipped because of what another
+    file contains (identical text, same name, ...)."""
+    f = prog.fn('slicec::parsers::parse_files')
+    ps = [c for c in f.calls() if c.name() == 'parse_file' and not f.blocks[c.bb].get('cleanup')]
+    if len(ps) != 1:
+        raise AnchorMissing('the call of parse_file in parse_files (found %d)' % len(ps))
+    other = _only_loop_and(prog, f, ps[0])
+    it = vexpr(f, ps[0].args[0])
+    if other:
+        r.finding('file-not-parsed', ps[0].span, 'parse_files parses a file only under %s: what a file compiles to then depends on the other files and on their order' % other)
+    elif not re.match(r'^next\(into_iter\(arg1\.files\)\) as Some\.0$', it):
+        r.finding('files-parse-walk', ps[0].span, 'parse_files parses %s, not every element of state.files in order' % it[:100])
+    else:
+        r.ok('every file is parsed, in list order, whatever the other files contain')
+    r.floor(1)
+
+
+def r_container_records_everything(r, prog):
+    """Every diagnostic that is reported is recorded: push_into appends unconditionally and extend appends everything it is given. A cap, a
+    de-duplication or any other filter at this point loses errors - and with them the gate before code generation and the exit status."""
+    D = 'slicec::diagnostics::diagnostic::'
+    pi = prog.fn(D + 'Diagnostic::push_into')
+    pushes = [c for c in pi.calls() if c.name() == 'push' and not pi.blocks[c.bb].get('cleanup')]
+    if len(pushes) == 1 and must_pass(pi, 0, pi.return_blocks(), [pushes[0].bb]) and vexpr(pi, pushes[0].args[1]) == 'arg1' and not [b for b in range(len(pi.blocks)) if pi.blocks[b]['t']['k'] == 'switch' and not pi.blocks[b].get('cleanup')]:
+        r.ok('push_into appends the diagnostic on every path, without looking at anything')
+    else:
+        r.finding('diagnostic-not-always-recorded', pi.span, 'Diagnostic::push_into does not append its diagnostic unconditionally (%d push site(s), or a branch before it)' % len(pushes))
+    ex = prog.fn(D + 'Diagnostics::extend')
+    exs = [c for c in ex.calls() if c.name() == 'extend' and not ex.blocks[c.bb].get('cleanup')]
+    if len(exs) == 1 and must_pass(ex, 0, ex.return_blocks(), [exs[0].bb]) and vexpr(ex, exs[0].args[1]) in ('arg2.0', 'into_iter(arg2.0)') \
+            and not [b for b in range(len(ex.blocks)) if ex.blocks[b]['t']['k'] == 'switch' and not ex.blocks[b].get('cleanup')]:
+        r.ok('extend appends every diagnostic of the other container')
+    else:
+        r.finding('diagnostics-not-all-merged', ex.span, 'Diagnostics::extend does not append everything it is given (%s)' % [vexpr(ex, c.args[1])[:60] for c in exs])
+    r.floor(2)
 
 
 def r_parser_entries(r, prog, which=('comments', 'slice', 'preprocessor')):
